@@ -157,6 +157,12 @@ func SelfCheck(c *Case, o *Observed) string {
 	if m := Conform(c, o); m != "" {
 		return "shape|" + m
 	}
+	all := AllErrors(c)
+	for _, e := range o.Errors {
+		if !all[e] {
+			return fmt.Sprintf("spurious|error %s %q is not a field error of this request (resolver outcomes allow only {%s})", e.Path, e.Msg, keys(all, func(e ErrObs) string { return e.Path + ":" + e.Msg }))
+		}
+	}
 	for _, e := range o.Errors {
 		if _, ok := Landing(o.tree, e.Path); !ok {
 			return fmt.Sprintf("landing|error %s %q does not lead to a null in the data %s", e.Path, e.Msg, o.Data)
@@ -258,4 +264,50 @@ func SplitCat(m string) (cat, msg string) {
 		return m[:i], m[i+1:]
 	}
 	return "", m
+}
+
+// AllErrors lists every field error the request can raise according to the GraphQL rules, read
+// off the world alone (no execution): resolver errors, completion errors, and a null resolved for
+// a non-null position. Which of them are reported depends on propagation (and, by the rules, on
+// execution order), but no run may report anything else.
+func AllErrors(c *Case) map[ErrObs]bool {
+	out := map[ErrObs]bool{}
+	var walkVal func(t *TShape, nn bool, w *WVal, path string)
+	walkObj := func(t *TShape, w *WVal, path string) {
+		for i, f := range t.Fields {
+			if f.Typename || i >= len(w.Fields) || w.Fields[i] == nil {
+				continue
+			}
+			wf := w.Fields[i]
+			p := pathJoin(path, strconv.Quote(f.Key()))
+			if wf.Err != "" {
+				out[ErrObs{"[" + p + "]", wf.Err}] = true
+				continue
+			}
+			walkVal(f.T, f.NN, wf.V, p)
+		}
+	}
+	walkVal = func(t *TShape, nn bool, w *WVal, path string) {
+		if w == nil {
+			return
+		}
+		switch w.Kind {
+		case "null":
+			if nn {
+				out[ErrObs{"[" + path + "]", MsgNonNull}] = true
+			}
+		case "badint":
+			out[ErrObs{"[" + path + "]", MsgCoerce}] = true
+		case "notlist":
+			out[ErrObs{"[" + path + "]", MsgNotList}] = true
+		case "list":
+			for i, it := range w.Items {
+				walkVal(t.Elem, t.ElemNN, it, pathJoin(path, strconv.Itoa(i)))
+			}
+		case "object":
+			walkObj(t, w, path)
+		}
+	}
+	walkObj(c.Shape, c.World, "")
+	return out
 }
